@@ -18,6 +18,85 @@ CHECKS = {
              "Bounded: 2-5 keys, capacity 1-4, depth 5-8 exhaustively; capacities 2-64 randomly.",
         technique="TLA+ spec (Lru.tla) model-checked with TLC; per-transition behaviour replay on LRUCache; trace validation (LruTrace.tla)",
     ),
+    "C01": dict(
+        category="model_checking",
+        text="Store.tla models the engine at page level (B+ tree inserts with splits, catalog trees, page cache, header, log) next to "
+             "the abstract promise (tables = sequences of rows); TLC checks ScanEqAbs/CatalogOK/IdsOK/TreesOK exhaustively in bounded "
+             "configurations (capacities 3/3, 1-2 tables, up to 4-7 statements) and prints one scenario per observable transition; "
+             "every scenario (quick) or a seeded sample (thorough) is executed on the real engine through SQL text at capacities 3/3 "
+             "and SELECT * / sys_schema / row ids are compared with the promise, followed by flush+cache-drop and restart probes.",
+        design_ref="DESIGN.md 6 (C01)",
+        note="Trusted: TLC; the SQL rendering of abstract statements; hook verifIsFull (capacity override runs the same code). "
+             "Bounded small-scope exhaustive, not a proof; page-level disagreement with the model is reported as drift, never as a violation.",
+        technique="TLA+ spec (Store.tla/BTree.tla) model-checked with TLC; per-transition behaviour replay on the real engine",
+    ),
+    "C02": dict(
+        category="model_checking",
+        text="Store.tla with Crash enabled between statements and Recover (log replay keyed on page LSNs, LSN counter, flush); "
+             "TLC explores all histories x flush placements x crash points x up to 2-3 crash/recover cycles within the bounds and checks "
+             "NothingLost/StartsUp/ScanEqAbs/IdsOK; every crash-containing scenario is replayed: the real process state is abandoned, "
+             "real storage.InitStorage recovers the files, real SELECTs are compared with the acknowledged state, then a clean "
+             "restart and a second recovery must change nothing.",
+        design_ref="DESIGN.md 6 (C02)",
+        note="Trusted: TLC; crash between statements = files as the process left them (every log write is fsynced before a statement returns). "
+             "Found and repaired with it: delete-shares-lsn, replay-update-decode, replay-lsn-regression (the last one found by TLC first).",
+        technique="TLA+ spec (Store.tla) model-checked with TLC; crash/recovery scenario replay on the real engine",
+    ),
+    "C03": dict(
+        category="model_checking",
+        text="Store.tla with the log append split into its write calls (length, body, fsync per record) and Crash enabled before each, "
+             "unsynced tail kept or dropped; the promise is the set of row-prefix states of the interrupted statement; TLC enumerates "
+             "every crash point of every statement in the bound; each is replayed by running the real statement under I/O recording "
+             "and composing the log file a crash at that point would leave, then real recovery, SELECT, and further statements.",
+        design_ref="DESIGN.md 6 (C03)",
+        note="Crash model as in the property: cut at the last write or the last fsync, write() atomic. Known finding rootmove-record-cut "
+             "(open) is identified by the specification's taint; torn-wal-tail was found and repaired.",
+        technique="TLA+ spec (Store.tla, WalSteps) model-checked with TLC; crash images composed from recorded log writes; replay on the real engine",
+    ),
+    "C04": dict(
+        category="model_checking",
+        text="Store.tla with flushes as FlushPage(p)* . FlushHdr and Crash enabled between any two steps, for flushes started by the "
+             "timer action, by CREATE TABLE and by recovery itself; TLC enumerates every subset of written pages; each is replayed by "
+             "composing the data file from the page images the real flush wrote; real recovery must start and hold an allowed state.",
+        design_ref="DESIGN.md 6 (C04)",
+        note="Crash model as in the property: page writes atomic, any order, header last. Most torn flushes at capacities 3/3 are structural "
+             "(known finding torn-structural-flush, open, identified by the specification's taint); the untainted ones and "
+             "all-pages-but-header are the part that can still alarm. Later statements after a torn flush are out of scope (DESIGN 5.2).",
+        technique="TLA+ spec (Store.tla, FlushSteps) model-checked with TLC; crash images composed from recorded page writes; replay on the real engine",
+    ),
+    "C11": dict(
+        category="model_checking",
+        text="BTree!TreeOK (ascending keys, separator bounds, uniform depth, no page twice, no node at capacity, leaf chain both ways, "
+             "lookup of every key) is an invariant of every Store.tla configuration; for the code, insert-heavy TLC-generated histories "
+             "are executed at capacities 3/3 (up to 5 tree levels), the raw page graph of every tree is recorded after each path and TLC "
+             "evaluates the same TreeOK on it (TreeTrace.tla); the engine's own findCell and scanLeft are run over every key.",
+        design_ref="DESIGN.md 6 (C11)",
+        note="Trusted: TLC, the page projection (serialises fields only). Small capacities via hook verifIsFull; production capacities are "
+             "covered by the random driver of the thorough tier.",
+        technique="TLA+ invariant (BTree.tla TreeOK) checked by TLC on the model and evaluated by TLC on page graphs recorded from the real store",
+    ),
+    "C14": dict(
+        category="model_checking",
+        text="Store.tla with invalid rows at every position k of multi-row INSERTs, failing UPDATEs, unknown tables and duplicate CREATE "
+             "TABLE; the promise after an error is the unchanged abstract state; TLC enumerates histories x failing statements x k; each "
+             "path ending in a failing statement is replayed on the real engine and SELECT * / catalog compared before/after, after "
+             "flush+cache drop, after restart and after crash+recovery.",
+        design_ref="DESIGN.md 6 (C14)",
+        note="Known finding partial-stmt-error (open): rows before the failing one stay applied; identified by the specification's taint "
+             "(error after n > 0 applied row operations). Failing-first-row statements, duplicate tables, unknown tables must pass.",
+        technique="TLA+ spec (Store.tla, BadMode) model-checked with TLC; failing-statement scenario replay on the real engine",
+    ),
+    "C16": dict(
+        category="model_checking",
+        text="Design: Store.tla does not model clean cached pages (a clean page equals its disk image) and Lru.tla shows only clean pages "
+             "are evicted, so all C01/C02 invariants hold for every capacity. Code: the TLC-generated histories are replayed with the "
+             "page cache replaced by NewLRU(K), K from 9 to 32 (the database has 16-30 pages), flushing after each statement, and must "
+             "give the promised outcomes and contents; runs where a statement's dirty set does not fit (ErrLRUCacheFull) are discarded and counted.",
+        design_ref="DESIGN.md 6 (C16)",
+        note="At capacities 3/3 CREATE TABLE alone dirties up to 9 pages, so K < 9 violates the property's precondition. "
+             "Evictions inside one operation are exercised by the replay, not modelled.",
+        technique="TLA+ spec (Store.tla + Lru.tla) model-checked with TLC; differential scenario replay with a small page cache",
+    ),
 }
 
 NOT_YET = "check not built yet (build in progress; see DESIGN.md section 6)"
